@@ -16,6 +16,8 @@ import EinoV.Proofs.C16
 import EinoV.Proofs.C16Keys
 import EinoV.Model.C16Slices
 import EinoV.Proofs.C16Slices
+import EinoV.Model.C16Resume
+import EinoV.Proofs.C16Resume
 import EinoV.Gen.FactsC16
 import EinoV.Expected.C16
 import EinoV.Proofs.TransC16
@@ -37,6 +39,9 @@ def genK : KeyFacts :=
 
 /-- The regenerated fact about how `extractOption` grows the lists of `optMap`. -/
 def genV : SliceFacts := { valsGrowFromMapSlot := FactsC16.valsGrowFromMapSlot }
+
+/-- The regenerated fact about tasks restored from a checkpoint. -/
+def genR : ResumeFacts := { restoredTaskGetsNodeCallbacks := FactsC16.restoredTaskGetsNodeCallbacks }
 
 /-! ## property theorems (instantiated with the facts regenerated from /repo) -/
 
@@ -328,6 +333,115 @@ theorem keyed_no_leak (store : List Opt) (cs : List CallW) :
   rw [runCallsW_eq genK_all, no_leak, List.map_map]
   rfl
 
+/-! ## interrupted and resuming calls (Model/C16Resume.lean)
+
+  A node body that returns `InterruptAndRerun` ends the call with a checkpoint; a later call with
+  the checkpoint id resumes: it extracts ITS OWN options, the nodes that had completed do not
+  execute again, the interrupted node – and the nested-graph nodes around it, as restored tasks –
+  and everything after it do.  `runWP … part` is `runW` restricted to the nodes that execute
+  (`Part.stopAt p`: the call the node at `p` interrupts; `Part.resumeAt p`: the call that resumes
+  there; `Part.full`: a call from START to END).  With the regenerated fact (every task the
+  executor runs, restored or new, gets its node callbacks) the clauses of the property hold for
+  each of these calls exactly as for a fresh one, for the nodes that execute in it. -/
+
+/-- Source fact tie: the regenerated fact is the one the oracle runs with. -/
+theorem resume_facts_match : genR = Expected.C16.resumeFacts := by decide
+
+theorem gen_R : genR.restoredTaskGetsNodeCallbacks = true := by decide
+
+/-- a call from START to END is the `run` all theorems above are about -/
+theorem fresh_call_is_run (par : Paradigm) (g : WNodes) (opts : List Opt) :
+    runWP gen genK genR par .full g opts = run gen g.erase opts := by
+  rw [runWP_full, keys_and_paradigm_irrelevant]
+
+/-- **resumed_option_reaches_iff.**  In a call that is accepted – fresh, interrupted at any node,
+    or resuming at any node; any paradigm, any keys – a component node at `p` that executes in it
+    (has an entry) receives exactly the values of the Options OF THIS CALL that have its type and
+    are undesignated or designated to a prefix of `p`: for the resuming call exactly as for a
+    fresh call, whatever the interrupted call was given. -/
+theorem resumed_option_reaches_iff (par : Paradigm) (part : Part) (g : WNodes)
+    (hwf : g.erase.wf = true) (opts : List Opt) (out : List Entry)
+    (hrun : runWP gen genK genR par part g opts = .ok out)
+    (p : Path) (k : Key) (ty : Nat) (hnode : nodeAt g.erase p = some (.comp k ty)) :
+    ∀ e ∈ out, e.path = p → ∀ v, v ∈ e.vals ↔
+      ∃ o ∈ opts, v ∈ o.vals ∧ ty = o.ty ∧
+        (o.paths = [] ∨ ∃ q ∈ o.paths, q ≠ [] ∧ q <+: p) := by
+  intro e he hp v
+  rcases runWP_entries gen_T gen_I gen_S genK_all gen_R par part g hwf opts out hrun e he
+    with ⟨h0, _⟩ | ⟨rel, hrel, ⟨n, hn, hkind⟩, _⟩
+  · rw [h0] at hp; subst hp; simp [nodeAt] at hnode
+  · simp only [List.nil_append] at hrel
+    rw [hp] at hrel; subst hrel
+    rw [hnode] at hn; cases hn
+    rcases hkind with ⟨_, k', ty', heq, hv⟩ | ⟨_, k', ch, heq, _⟩
+    · cases heq; exact hv v
+    · cases heq
+
+/-- **resumed_callbacks_reach_iff.**  In an accepted call – fresh, interrupted or resuming – a
+    handler is active for a node that executes in it (component, graph node – also a nested graph
+    restored from the checkpoint –, or the outermost graph) iff it belongs to an Option of this
+    call that is undesignated or has a designated path that is a prefix of the node's path. -/
+theorem resumed_callbacks_reach_iff (par : Paradigm) (part : Part) (g : WNodes)
+    (hwf : g.erase.wf = true) (opts : List Opt) (out : List Entry)
+    (hrun : runWP gen genK genR par part g opts = .ok out) (e : Entry) (he : e ∈ out) (h : Nat) :
+    h ∈ e.handlers ↔
+      ∃ o ∈ opts, h ∈ o.handlers ∧ (o.paths = [] ∨ ∃ q ∈ o.paths, q ≠ [] ∧ q <+: e.path) := by
+  rcases runWP_entries gen_T gen_I gen_S genK_all gen_R par part g hwf opts out hrun e he
+    with ⟨h0, _, _, hh⟩ | ⟨rel, hrel, _, hh⟩
+  · rw [hh, h0, mem_graphHandlers]
+    constructor
+    · rintro ⟨o, ho, hp, hm⟩; exact ⟨o, ho, hm, Or.inl hp⟩
+    · rintro ⟨o, ho, hm, (hp | ⟨q, _, hne, hq⟩)⟩
+      · exact ⟨o, ho, hp, hm⟩
+      · exact absurd (List.prefix_nil.mp hq) hne
+  · simp only [List.nil_append] at hrel
+    subst hrel
+    rw [hh h, mem_graphHandlers]
+    constructor
+    · rintro (⟨o, ho, hp, hm⟩ | ⟨o, ho, hm, hc⟩)
+      · exact ⟨o, ho, hm, Or.inl hp⟩
+      · exact ⟨o, ho, hm, Or.inr hc⟩
+    · rintro ⟨o, ho, hm, (hp | hc)⟩
+      · exact Or.inl ⟨o, ho, hp, hm⟩
+      · exact Or.inr ⟨o, ho, hm, hc⟩
+
+/-- **resumed_call_delivers_as_fresh_call.**  If the call made fresh with the same options is
+    accepted, then the call in which only part of the nodes execute (interrupted / resuming at any
+    node) is accepted too, and what it delivers – node by node, values in order, handlers – are
+    entries of the fresh call, in the fresh call's order: nothing is added, nothing is changed. -/
+theorem resumed_call_delivers_as_fresh_call (par : Paradigm) (part : Part) (g : WNodes)
+    (opts : List Opt) (out : List Entry) (hrun : run gen g.erase opts = .ok out) :
+    ∃ outP, runWP gen genK genR par part g opts = .ok outP ∧ outP.Sublist out := by
+  rw [← keys_and_paradigm_irrelevant par] at hrun
+  exact runWP_sublist gen_R par part g opts out hrun
+
+/-- **interrupt_point_executes.**  The node that interrupts executes in the interrupted call (its
+    body received its options before it interrupted) and again in the resuming call: both have an
+    entry at its path. -/
+theorem interrupt_point_executes (par : Paradigm) (g : WNodes) (opts : List Opt) (ip : Path) (n : Node)
+    (hnode : nodeAt g.erase ip = some n) (hnp : n.isPass = false) (part : Part)
+    (hpart : part = .stopAt ip ∨ part = .resumeAt ip) (out : List Entry)
+    (hrun : runWP gen genK genR par part g opts = .ok out) : ∃ e ∈ out, e.path = ip := by
+  unfold runWP at hrun
+  split at hrun
+  · cases hrun
+  · rename_i log _
+    split at hrun
+    · cases hrun
+    · rename_i es hes
+      cases hrun
+      obtain ⟨e, he, hp⟩ := runNodesWP_point par g part [] _ opts log es hes ip n hpart hnode hnp
+      exact ⟨e, List.mem_cons_of_mem _ he, by simpa using hp⟩
+
+/-- **resume_no_leak.**  Over any sequence of calls – ordinary, interrupted, resuming – that share
+    Option values and the checkpoint store: each call's outcome is `runWP` of ITS OWN graph and
+    options, on the part the sequence determines (`callsSpec`: a resuming call resumes where the
+    last accepted interrupted call stopped, else runs from START); nothing else of an earlier
+    call – its options, its callbacks – enters, and the caller's Option values are unchanged. -/
+theorem resume_no_leak (saved : Option Path) (store : List Opt) (cs : List CallP) :
+    runCallsWP gen genK genR saved store cs = (callsSpec gen genK genR store saved cs, store) :=
+  runCallsWP_copies gen_C cs saved store
+
 /-! ## option value lists as Go slices (Model/C16Slices.lean)
 
   `WithLambdaOption(vals...)` keeps the caller's slice: the value list of an Option can have
@@ -345,25 +459,31 @@ theorem gen_V : genV.valsGrowFromMapSlot = true := by decide
 
 /-- **capacity_and_sharing_irrelevant.**  For every heap of backing arrays and every list of
     Options whose value slices point into it – any lengths, any spare capacity, any number of
-    Options sharing an array –, every growth rule of `append`, every paradigm and every tree
-    (any keys): the call run with slice semantics has the outcome of the pure `run` on the
-    Options as they read when the call starts (the subject of `option_reaches_iff`,
-    `designation_errors_iff`, `callbacks_reach_iff`), and every array that existed before the
+    Options sharing an array –, every growth rule of `append`, every paradigm, every tree (any
+    keys) and every kind of call (fresh, interrupted, resuming): the call run with slice
+    semantics has the outcome of the pure `runWP` on the Options as they read when the call
+    starts – for a call from START to END that is `run`, the subject of `option_reaches_iff`,
+    `designation_errors_iff`, `callbacks_reach_iff` –, and every array that existed before the
     call has all its cells unchanged afterwards. -/
-theorem capacity_and_sharing_irrelevant (grow : Nat → Nat → Nat) (par : Paradigm) (g : WNodes)
-    (opts : List SOpt) (h : VHeap) (hb : ∀ o ∈ opts, o.vh.arr < h.next) :
-    (runSW gen genK genV grow par g opts h).2 = run gen g.erase (opts.map (SOpt.abs h)) ∧
-    Frame h (runSW gen genK genV grow par g opts h).1 := by
-  have := runSW_refines (F := gen) (K := genK) gen_V grow par g opts h hb
-  exact ⟨by rw [this.2, keys_and_paradigm_irrelevant], this.1⟩
+theorem capacity_and_sharing_irrelevant (grow : Nat → Nat → Nat) (par : Paradigm) (part : Part)
+    (g : WNodes) (opts : List SOpt) (h : VHeap) (hb : ∀ o ∈ opts, o.vh.arr < h.next) :
+    (runSW gen genK genR genV grow par part g opts h).2
+      = runWP gen genK genR par part g (opts.map (SOpt.abs h)) ∧
+    (part = .full → (runSW gen genK genR genV grow par part g opts h).2
+      = run gen g.erase (opts.map (SOpt.abs h))) ∧
+    Frame h (runSW gen genK genR genV grow par part g opts h).1 := by
+  have := runSW_refines (F := gen) (K := genK) (R := genR) gen_V grow par part g opts h hb
+  refine ⟨this.2, ?_, this.1⟩
+  intro hp
+  rw [this.2, hp, fresh_call_is_run]
 
 /-- **caller_arrays_never_written.**  After the call the caller finds in the backing array of
     each of its Options – the elements and the spare cells behind them, `[0, cap)` – what was
     there before. -/
-theorem caller_arrays_never_written (grow : Nat → Nat → Nat) (par : Paradigm) (g : WNodes)
+theorem caller_arrays_never_written (grow : Nat → Nat → Nat) (par : Paradigm) (part : Part) (g : WNodes)
     (opts : List SOpt) (h : VHeap) (hb : ∀ o ∈ opts, o.vh.arr < h.next) (o : SOpt) (ho : o ∈ opts) :
-    (runSW gen genK genV grow par g opts h).1.cells o.vh = h.cells o.vh := by
-  have hf := (capacity_and_sharing_irrelevant grow par g opts h hb).2
+    (runSW gen genK genR genV grow par part g opts h).1.cells o.vh = h.cells o.vh := by
+  have hf := (capacity_and_sharing_irrelevant grow par part g opts h hb).2.2
   unfold VHeap.cells
   exact List.map_congr_left (fun i _ => hf.2 _ i (hb o ho))
 
@@ -373,13 +493,13 @@ theorem caller_arrays_never_written (grow : Nat → Nat → Nat) (par : Paradigm
     whatever capacity it has, whichever other Options address the same node. -/
 theorem sliced_option_reaches_iff (grow : Nat → Nat → Nat) (par : Paradigm) (g : WNodes)
     (hwf : g.erase.wf = true) (opts : List SOpt) (h : VHeap) (hb : ∀ o ∈ opts, o.vh.arr < h.next)
-    (out : List Entry) (hrun : (runSW gen genK genV grow par g opts h).2 = .ok out)
+    (out : List Entry) (hrun : (runSW gen genK genR genV grow par .full g opts h).2 = .ok out)
     (p : Path) (k : Key) (ty : Nat) (hnode : nodeAt g.erase p = some (.comp k ty)) :
     (∃ e ∈ out, e.path = p) ∧
     ∀ e ∈ out, e.path = p → ∀ v, v ∈ e.vals ↔
       ∃ o ∈ opts, v ∈ h.read o.vh ∧ ty = o.ty ∧
         (o.paths = [] ∨ ∃ q ∈ o.paths, q ≠ [] ∧ q <+: p) := by
-  rw [(capacity_and_sharing_irrelevant grow par g opts h hb).1] at hrun
+  rw [(capacity_and_sharing_irrelevant grow par .full g opts h hb).2.1 rfl] at hrun
   have := option_reaches_iff g.erase hwf _ out hrun p k ty hnode
   refine ⟨this.1, fun e he hp v => ?_⟩
   rw [this.2 e he hp v]
@@ -392,22 +512,28 @@ theorem sliced_option_reaches_iff (grow : Nat → Nat → Nat) (par : Paradigm) 
 
 /-- **sliced_no_leak.**  For every construction of the caller's store (fresh Options over value
     lists with any spare capacity, Options derived from earlier ones and sharing their arrays)
-    and every sequence of calls over it (any graphs, keys, paradigms, index sets): each call's
-    outcome is the pure `run` on the Option values the construction *means* (`specStore`: no
-    capacities in it), the caller's Option values are the same afterwards, and so is every cell
-    – spare ones included – of every array the construction made. -/
+    and every sequence of calls over it (any graphs, keys, paradigms, index sets; ordinary,
+    interrupted and resuming calls): each call's outcome is the pure one (`callsSpec`: `runWP` of
+    its own graph and of the Option values the construction *means* – `specStore`: no capacities
+    in it –; for a sequence of ordinary calls: `run`), the caller's Option values are the same
+    afterwards, and so is every cell – spare ones included – of every array the construction made. -/
 theorem sliced_no_leak (grow : Nat → Nat → Nat) (ops : List StoreOp) (hwf : storeOpsWf ops 0 = true)
-    (cs : List CallW) :
+    (cs : List CallP) :
     let b := buildStore ops (VHeap.empty, [])
-    let r := runCallsSW gen genK genV grow b.1 b.2 cs
-    r.1 = cs.map (fun c => run gen c.g.erase (pick (specStore ops) c.ixs)) ∧
+    let r := runCallsSW gen genK genR genV grow none b.1 b.2 cs
+    r.1 = callsSpec gen genK genR (specStore ops) none cs ∧
+    ((∀ c ∈ cs, c.ask = .plain) →
+      r.1 = cs.map (fun c => run gen c.g.erase (pick (specStore ops) c.ixs))) ∧
     r.2.1 = b.2 ∧ (∀ o ∈ b.2, r.2.2.cells o.vh = b.1.cells o.vh) := by
   intro b r
   obtain ⟨hb, hspec⟩ := buildStore_empty ops hwf
-  have := runCallsSW_refines (F := gen) (K := genK) gen_C gen_V grow cs b.1 b.2 hb
-  refine ⟨?_, this.2.1, ?_⟩
-  · show (runCallsSW gen genK genV grow b.1 b.2 cs).1 = _
+  have := runCallsSW_refines (F := gen) (K := genK) (R := genR) gen_C gen_V grow cs none b.1 b.2 hb
+  have h1 : r.1 = callsSpec gen genK genR (specStore ops) none cs := by
+    show (runCallsSW gen genK genR genV grow none b.1 b.2 cs).1 = _
     rw [this.1, hspec]
+  refine ⟨h1, ?_, this.2.1, ?_⟩
+  · intro hplain
+    rw [h1, callsSpec_plain genR _ cs none hplain]
     exact List.map_congr_left (fun c _ => keys_and_paradigm_irrelevant c.par c.g _)
   · intro o ho
     unfold VHeap.cells
@@ -564,7 +690,7 @@ def valsAt : Except RunErr (List Entry) → List (Path × List Nat)
 def afterOneCall (V : SliceFacts) (g : WNodes) (ops : List StoreOp) :
     List (Path × List Nat) × List (List Nat) :=
   let b := buildStore ops (VHeap.empty, [])
-  let r := runSW Expected.C16.facts Expected.C16.keyFacts V goGrowAny .invoke g b.2 b.1
+  let r := runSW Expected.C16.facts Expected.C16.keyFacts Expected.C16.resumeFacts V goGrowAny .invoke .full g b.2 b.1
   (valsAt r.2, b.2.map (fun o => r.1.cells o.vh))
 
 /-- a ⟶ b, two lambdas of option type 1 -/
@@ -602,13 +728,84 @@ theorem first_list_aliasing_misdelivers :
     let V : SliceFacts := { valsGrowFromMapSlot := false }
     afterOneCall V exTwo exCommon = ([(["a"], [1, 3]), (["b"], [1, 3])], [[1, 3], [2], [3]]) ∧
     (let st := (buildStore exSiblings (VHeap.empty, []))
-     valsAt (runSW Expected.C16.facts Expected.C16.keyFacts V goGrowAny .invoke exTwo (pickS st.2 [1, 2, 3, 4]) st.1).2)
+     valsAt (runSW Expected.C16.facts Expected.C16.keyFacts Expected.C16.resumeFacts V goGrowAny .invoke .full exTwo (pickS st.2 [1, 2, 3, 4]) st.1).2)
       = [(["a"], [1, 3]), (["b"], [1, 3])] ∧
     afterOneCall V exNested
         [.fresh 1 [1] 1 [] [], .fresh 1 [2] 0 [] [["sub", "a"]], .fresh 1 [3] 0 [] [["t"]]]
       = ([(["sub", "a"], [1, 2]), (["t"], [1, 2])], [[1, 2], [2], [3]]) ∧
     afterOneCall V exTwo [.fresh 1 [1] 0 [] [], .fresh 1 [2] 0 [] [["a"]], .fresh 1 [3] 0 [] [["b"]]]
       = ([(["a"], [1, 2]), (["b"], [1, 3])], [[1], [2], [3]]) := by
+  decide
+
+/-- a ⟶ sub[ b ⟶ in[ w ⟶ y ] ⟶ c ] ⟶ d; `sub/in/w` is the node that interrupts -/
+def exResume : WNodes :=
+  .cons (.comp "a" 1 Wrap.plain) <|
+  .cons (.graph "sub" (.cons (.comp "b" 1 Wrap.plain) <|
+      .cons (.graph "in" (.cons (.comp "w" 1 Wrap.plain) <| .cons (.comp "y" 1 Wrap.plain) .nil) Wrap.plain) <|
+      .cons (.comp "c" 1 Wrap.plain) .nil) Wrap.plain) <|
+  .cons (.comp "d" 1 Wrap.plain) .nil
+
+/-- the options of the resuming call -/
+def exResumeOpts : List Opt :=
+  [ { ty := 1, vals := [7], handlers := [], paths := [["sub", "in", "w"]] },
+    { ty := 1, vals := [8], handlers := [], paths := [] },
+    { ty := 0, vals := [], handlers := [3], paths := [["sub"]] },
+    { ty := 0, vals := [], handlers := [4], paths := [["sub", "in"]] },
+    { ty := 0, vals := [], handlers := [5], paths := [["a"]] },
+    { ty := 0, vals := [], handlers := [6], paths := [] } ]
+
+example : exResume.erase.wf = true := by decide
+/-- the interrupted call (its own options: one undesignated value, one callback on `sub`) runs
+    `a`, `sub`, `sub/b`, `sub/in`, `sub/in/w`; the resuming call – other options – runs `sub`,
+    `sub/in`, `sub/in/w`, `sub/in/y`, `sub/c`, `d`, each with what a fresh call would give it; an
+    unknown node designated inside `sub` is an error in the resuming call, one designated to `a`
+    (which does not execute) only where the fresh call checks it too: at the top -/
+example :
+    runWP Expected.C16.facts Expected.C16.keyFacts Expected.C16.resumeFacts .invoke
+        (.stopAt ["sub", "in", "w"]) exResume
+        [⟨1, [1], [], []⟩, ⟨0, [], [2], [["sub"]]⟩]
+      = .ok [⟨[], true, [], []⟩, ⟨["a"], false, [1], []⟩, ⟨["sub"], true, [], [2]⟩,
+             ⟨["sub", "b"], false, [1], [2]⟩, ⟨["sub", "in"], true, [], [2]⟩,
+             ⟨["sub", "in", "w"], false, [1], [2]⟩] ∧
+    runWP Expected.C16.facts Expected.C16.keyFacts Expected.C16.resumeFacts .stream
+        (.resumeAt ["sub", "in", "w"]) exResume exResumeOpts
+      = .ok [⟨[], true, [], [6]⟩, ⟨["sub"], true, [], [6, 3]⟩, ⟨["sub", "in"], true, [], [6, 3, 4]⟩,
+             ⟨["sub", "in", "w"], false, [7, 8], [6, 3, 4]⟩, ⟨["sub", "in", "y"], false, [8], [6, 3, 4]⟩,
+             ⟨["sub", "c"], false, [8], [6, 3]⟩, ⟨["d"], false, [8], [6]⟩] ∧
+    runWP Expected.C16.facts Expected.C16.keyFacts Expected.C16.resumeFacts .invoke
+        (.resumeAt ["sub", "in", "w"]) exResume [⟨1, [1], [], [["sub", "zz"]]⟩]
+      = .error (["sub"], .unknownNode) := by decide
+
+/-- a sequence: a rejected interrupted call saves nothing, so the call that would resume runs
+    from START; an accepted one is resumed -/
+example :
+    (callsSpec Expected.C16.facts Expected.C16.keyFacts Expected.C16.resumeFacts
+        [⟨1, [1], [], [["zz"]]⟩, ⟨1, [2], [], []⟩] none
+        [⟨exResume, [0], .invoke, .interruptAt ["sub", "in", "w"]⟩, ⟨exResume, [1], .invoke, .resume⟩,
+         ⟨exResume, [1], .invoke, .interruptAt ["sub", "b"]⟩, ⟨exResume, [1], .collect, .resume⟩]).map valsAt
+      = [[], [(["a"], [2]), (["sub", "b"], [2]), (["sub", "in", "w"], [2]), (["sub", "in", "y"], [2]),
+              (["sub", "c"], [2]), (["d"], [2])],
+         [(["a"], [2]), (["sub", "b"], [2])],
+         [(["sub", "b"], [2]), (["sub", "in", "w"], [2]), (["sub", "in", "y"], [2]), (["sub", "c"], [2]),
+          (["d"], [2])]] := by decide
+
+/-- If the node callbacks were set up where tasks restored with `skipPreHandler` do not pass, then
+    in the resuming call a handler designated to the restored nested-graph node (`["sub"]`, or
+    one level down `["sub","in"]`) would be active neither for that graph nor for the nodes inside
+    it, while designations to nodes that are new tasks of this call (`sub/in/w` – rerun –, and
+    everything after the interrupt point) and undesignated handlers still work:
+    `resumed_callbacks_reach_iff` is false for that value of the fact.  The interrupted call and
+    fresh calls are unaffected. -/
+theorem restored_graph_loses_designated_callbacks_when_init_is_skipped :
+    let R : ResumeFacts := { restoredTaskGetsNodeCallbacks := false }
+    runWP Expected.C16.facts Expected.C16.keyFacts R .invoke (.resumeAt ["sub", "in", "w"]) exResume
+        (exResumeOpts ++ [{ ty := 0, vals := [], handlers := [9], paths := [["sub", "in", "w"], ["d"]] }])
+      = .ok [⟨[], true, [], [6]⟩, ⟨["sub"], true, [], [6]⟩, ⟨["sub", "in"], true, [], [6]⟩,
+             ⟨["sub", "in", "w"], false, [7, 8], [6, 9]⟩, ⟨["sub", "in", "y"], false, [8], [6]⟩,
+             ⟨["sub", "c"], false, [8], [6]⟩, ⟨["d"], false, [8], [6, 9]⟩] ∧
+    (∀ part ∈ [Part.full, .stopAt ["sub", "in", "w"]],
+      runWP Expected.C16.facts Expected.C16.keyFacts R .invoke part exResume exResumeOpts
+        = runWP Expected.C16.facts Expected.C16.keyFacts Expected.C16.resumeFacts .invoke part exResume exResumeOpts) := by
   decide
 
 /-- Stripping two keys instead of one sends the option to the wrong level. -/
